@@ -59,3 +59,17 @@ def convert_via(doc: dict, backend, via: int):
         return backend.convert(coll)
     rule = SigmaRule.from_yaml(yaml.safe_dump(doc, sort_keys=False)) if as_yaml else SigmaRule.from_dict(doc)
     return backend.convert_rule(rule)
+
+
+def with_global(docs, key="detection", sub="condition"):
+    """The same collection written the short way: what all documents have in common under key/sub stands once, in a
+    global action document in front (equivalent by the documented meaning of action: global)."""
+    import copy
+
+    docs = copy.deepcopy(docs)
+    vals = [d.get(key, {}).get(sub) for d in docs]
+    if len(docs) < 2 or any(v is None or v != vals[0] for v in vals):
+        return docs
+    for d in docs:
+        del d[key][sub]
+    return [{"action": "global", key: {sub: vals[0]}}] + docs
